@@ -1054,6 +1054,9 @@ pub struct TreeCxInner {
     pub problems: Mutex<Vec<String>>,
     /// (node, step) -> did the child run under `catch_unwind` panic
     pub caught: Mutex<Vec<(u32, u16, bool)>>,
+    /// Monitor-specific state of this run (C18: the script and log of the re-entrant components),
+    /// reachable from user components through [`current_tree_cx`].
+    pub ext: std::sync::OnceLock<Arc<dyn std::any::Any + Send + Sync>>,
 }
 
 /// The harness-side context of one tree run.
@@ -1071,6 +1074,7 @@ impl TreeCx {
             sampler_log: Mutex::new(Vec::new()),
             problems: Mutex::new(Vec::new()),
             caught: Mutex::new(Vec::new()),
+            ext: std::sync::OnceLock::new(),
         }))
     }
 
@@ -1122,6 +1126,11 @@ pub fn with_tree<R>(cx: &TreeCx, f: impl FnOnce() -> R) -> R {
 
 fn current_tree() -> Option<TreeCx> {
     CURRENT.try_with(|c| c.borrow().clone()).ok().flatten()
+}
+
+/// The tree that is running on the calling thread (for user components of the runtime under test).
+pub fn current_tree_cx() -> Option<TreeCx> {
+    current_tree()
 }
 
 /// The emitter of every runtime under test: hands the event to the recorder of the tree that
@@ -2091,7 +2100,15 @@ pub struct TreeRun {
 
 /// Execute `top` on a fresh thread (so every tree starts from pristine thread-locals).
 pub fn run_tree<X: Env>(top: &Node, sampler_table: Vec<bool>) -> TreeRun {
+    run_tree_ext::<X>(top, sampler_table, None)
+}
+
+/// [`run_tree`] with monitor-specific state attached to the run ([`TreeCxInner::ext`]).
+pub fn run_tree_ext<X: Env>(top: &Node, sampler_table: Vec<bool>, ext: Option<Arc<dyn std::any::Any + Send + Sync>>) -> TreeRun {
     let cx = TreeCx::new(sampler_table);
+    if let Some(ext) = ext {
+        let _ = cx.0.ext.set(ext);
+    }
     let mut main_thread = 0;
     let panicked = std::thread::scope(|s| {
         let h = s.spawn(|| {
